@@ -645,7 +645,47 @@ def _enum_i24(lo, hi):
     return n, violations
 
 
-# index space: [0, N_RANDOM) random runs, then enumeration chunks
+def _form_combos():
+    return [(f, le, fmt, asz, ver) for f in sorted(FORM_MODEL) for le in (True, False) for fmt in (32, 64) for asz in (4, 8) for ver in (2, 3, 4, 5)]
+
+
+def _enum_forms(lo, hi):
+    """Every (form, byte order, format, address size, version) combination once, with the boundary values of its encoding, through
+    the same run machinery (positional and sequential parse, end of file at every byte)."""
+    violations = []
+    n = 0
+    for form, le, fmt, asz, ver in _form_combos()[lo:hi]:
+        params = {'form': form, 'little': le, 'fmt': fmt, 'asz': asz, 'ver': ver}
+        m = FORM_MODEL[form]
+        bo = 'little' if le else 'big'
+        if m == 'uleb':
+            encs = [(enc_uleb(v, p), v) for v in (0, 1, 127, 128, 16383, 16384, (1 << 32) - 1, (1 << 63), (1 << 64) - 1) for p in (0, 1)]
+        elif m == 'sleb':
+            encs = [(enc_sleb(v, p), v) for v in (0, 1, -1, 63, 64, -64, -65, 8191, -8192, (1 << 63) - 1, -(1 << 63)) for p in (0, 1)]
+        elif m == 'b16':
+            encs = [(bytes(range(1, 17)), list(range(1, 17))), (bytes(16), [0] * 16), (b'\xff' * 16, [255] * 16)]
+        elif m == 'empty':
+            encs = [(b'', {'hex': ''})]
+        else:
+            width = {'off': fmt // 8, 'addr': asz, 'refaddr': asz if ver == 2 else fmt // 8}.get(m) or m[1]
+            top = (1 << (8 * width)) - 1
+            encs = [(v.to_bytes(width, bo), v) for v in sorted(set([0, 1, 0x7f, 0x80, 0xff, top >> 1, (top >> 1) + 1, top - 1, top, 0x0102030405060708 & top]))]
+        img = bytearray(b'\xa5')
+        entries = []
+        for enc, val in encs:
+            entries.append(dict(kind='ds_form', params=params, start=len(img), end=len(img) + len(enc), value=_jv(val), expect='ok'))
+            img += enc
+        img += b'\xff\x80\x80'
+        ops = [[k, i] for i in range(len(entries)) for k in ('at', 'seq')]
+        spec = dict(engine=ENGINE, image=bytes(img).hex(), entries=entries, ops=ops, sweep='full')
+        res = execute_spec(spec)
+        n += len(ops) + res['sim_time'] * 0
+        for v in res['violations'][:3]:
+            violations.append(dict(v, spec=spec))
+    return n, violations
+
+
+# index space: the enumeration chunks, then N_RANDOM random runs
 _PLAN = {}
 
 
@@ -658,13 +698,15 @@ def _plan(tier):
         n_random, leb_total, i24_total, chunk = 400000, 256 + 65536 + (1 << 24), 1 << 24, 1 << 16
     chunks = [('leb', lo, min(lo + chunk, leb_total)) for lo in range(0, leb_total, chunk)]
     chunks += [('i24', lo, min(lo + chunk, i24_total)) for lo in range(0, i24_total, chunk)]
+    nf = len(_form_combos())
+    chunks += [('forms', lo, min(lo + 74, nf)) for lo in range(0, nf, 74)]
     _PLAN[tier] = (n_random, chunks)
     return _PLAN[tier]
 
 
 def spec_for(prop, tier, seed, index):
     n_random, chunks = _plan(tier)
-    return gen_spec(seed, index, tier) if index < n_random else dict(engine=ENGINE, enum=list(chunks[index - n_random]))
+    return gen_spec(seed, index - len(chunks), tier) if index >= len(chunks) else dict(engine=ENGINE, enum=list(chunks[index]))
 
 
 def describe(prop):
@@ -677,7 +719,7 @@ def describe(prop):
               'seeded sequence of sequential / positional parses and cursor displacements + a sweep of an injected '
               'end-of-file at every byte of every encoding (sampled positions inside encodings longer than 40 bytes); '
               'plus enumerated sweeps: every byte string of length <=2 (quick) / <=3 (thorough) as LEB128 prefix and '
-              '2^16 (quick) / all 2^24 (thorough) 24-bit values per byte order. '
+              '2^16 (quick) / all 2^24 (thorough) 24-bit values per byte order, and every (attribute form, byte order, format, address size, DWARF version) combination of the Dwarf_dw_form table with the boundary values of its encoding. '
               'distinct_nontrivial = distinct (image, op list) digests of random runs + enumeration chunks; every run parses at least one encoding'),
         components=dict(real=['elftools.common.utils.struct_parse/parse_cstring_from_stream',
                               'elftools.common.construct_utils (ULEB128, SLEB128, U[BL]Int24, RepeatUntilExcluding)',
@@ -701,10 +743,11 @@ def n_runs(prop, tier):
 
 def execute_index(prop, tier, seed, index):
     n_random, chunks = _plan(tier)
-    if index < n_random:
-        return execute_spec(gen_spec(seed, index, tier))
-    kind, lo, hi = chunks[index - n_random]
-    n, viol = (_enum_leb if kind == 'leb' else _enum_i24)(lo, hi)
+    # the enumeration chunks come first in the index space: a wall-clock budget that runs out (loaded machine) cuts sampling, not them
+    if index >= len(chunks):
+        return execute_spec(gen_spec(seed, index - len(chunks), tier))
+    kind, lo, hi = chunks[index]
+    n, viol = {'leb': _enum_leb, 'i24': _enum_i24, 'forms': _enum_forms}[kind](lo, hi)
     return dict(spec=None, violations=viol[:5], digest=pdigest(kind, lo, hi, len(viol)), nontrivial=True,
                 nt_digest=pdigest(kind, lo, hi), evaluations=n, sim_time=n * 3, faults={},
                 probes={'enum_' + kind: n}, sample=None)
